@@ -4,6 +4,21 @@ import json, subprocess, sys
 
 # id -> (category, technique, level text, level note, design ref)
 CHECKS = {
+ "C01": ("exploration", "bounded-exhaustive enumeration of logical archives (all partial maps of a 5/6-id x 4-content alphabet, metadata/settings alphabets, scale families) through the real writer and reader against a BTreeMap reference model",
+         "Every partial map of ids {0,1,2,4,5[,LAST]} into four colliding contents x 4 compressions x {sync,async} writer x {sync,async} reader (50k round trips quick, 250k thorough), all maps of three 100 KiB near-duplicates, a metadata alphabet incl. 140 floats and u64/i64 extremes, all enum/zoom codes, 153 coordinate sextuples judged by an exact nearest-multiple oracle, and leaf-spilling scale families; ids, bytes, absent neighbours, metadata, settings compared exactly.",
+         "reference model = BTreeMap + settings; coordinates judged by integer arithmetic on the f64 (harness/src/spec/latlng.rs)", "4/C01"),
+ "C02": ("exploration", "bounded-exhaustive enumeration of written archives validated by an independent spec-derived reader, plus parameter sweeps across the 16 KiB root window",
+         "Every archive of the C01 corpus and 760 whole-archive sweeps with n in [n*-40,n*+80] around the root-size crossing (8 family x codec combinations) is parsed by the harness's own v3 reader: sections in file and disjoint, header+root <= 16384, directories decode under the declared codec, ordering, tile ranges, counters recomputed, clustered flag, JSON object, spec lookup procedure for every id and its neighbours.",
+         "trusts harness/src/spec/archive.rs and the upstream codec crates as decoders", "4/C02"),
+ "C04": ("model_checking", "explicit-state breadth-first search to fix-point over edit histories of the real PMTiles object (states merged on a canonical key read through the verif hook), BTreeMap reference model checked in every state",
+         "All histories over add/remove/save+reopen(sync|async) on adjacent ids with colliding contents from 10 (quick) / 14 (thorough) initial states incl. three foreign archives: the reachable state space is finite and explored completely (8.4k states / 92k transitions quick; ~330k states thorough); every transition is executed on the real object twice (with and without interleaved lookups) and lookups by id and by coordinates, listing and count are compared with the map in every state.",
+         "state merging argument in DESIGN.md 4/C04; hook is read-only", "4/C04"),
+ "C10": ("model_checking", "bounded-exhaustive archive enumeration in three tile provenances judged by the independent reader, plus an invariant on the hook snapshot in every state of the explicit-state history search",
+         "Archive clauses on every small map x 4 codecs x {memory, reader-backed, mixed} x {sync,async} (58k archives quick) and on foreign archives storing a content twice: data length = sum of distinct contents, equal content <=> equal offset, no mergeable neighbours, entry count = number of maximal runs. Retention clause (exactly one stored copy per referenced content, exact reference sets, no orphan) as an invariant in every state of the C04 BFS.",
+         "64-bit content hashes assumed collision-free on the alphabets", "4/C10"),
+ "C19": ("model_checking", "rejected-operation invariant checked in every state of the explicit-state history search; exhaustive position enumeration for the directory/metadata/compression clauses",
+         "add_tile(id, empty) in three argument forms for every id in every reachable state of the C04 BFS (2.2M refused adds quick): Err and snapshot + observations unchanged; zero-length entry at every index of directories of size 1..4 (+1000-entry lists) x 4 codecs x sync/async for parser and serialiser, archives carrying one in root or leaf; every non-object JSON kind as metadata; Unknown compression through writer, opener, directory codec and the six helpers.",
+         "spec encoder produces the offending directories", "4/C19"),
  "C05": ("exploration", "bounded-exhaustive enumeration of entry lists (all valid lists <=2 entries over boundary alphabets, <=3 reduced) on the real codec vs an independent spec codec",
          "Every valid directory of <=2 entries over boundary value sets (every case of the offset rule at index 0 and >0), every 3-entry list over a reduced set and three parametric families up to 10^5 entries, x4 compressions x sync/async: parse(serialise(d))==d, serialised bytes == independent spec encoder, parser decodes the spec encoder's output. Exhaustive within those alphabets; no sampling.",
          "trusts harness/src/spec/{varint,dir,codec}.rs (written from the v3 spec) and the upstream codec crates as independent decoders", "4/C05"),
